@@ -68,6 +68,8 @@ def sym_op(name, npid, nx):
 
 
 def run(chk):
+    global NX
+    NX = 3 if chk.tier == "thorough" else 2
     src = load()
     chk.rule_text = "apply_pdf(eko, pdf)[ep][label][i] == M . R . (O_ep . xf/x) for every option combination"
     fap = src.func(f"{AP}.apply_pdf")
